@@ -348,7 +348,7 @@ class Anchors(object):
     """Named constructs of gen_symbols_samples found through def-use (never through positions)."""
 
     def __init__(self, idx):
-        fi = idx.func(GSS)
+        fi = X.settled(idx.func(GSS), keyed=False)
         self.fi = fi
         fn = self.fn = fi.node
         if fi.params != ['symbols', 'samples', 'sample_from', 'functions', 'suffixes', 'constants']:
@@ -386,6 +386,45 @@ class Anchors(object):
     def assigns(self, name):
         return [s for s in walk_own(self.fn) if isinstance(s, ast.Assign) and len(s.targets) == 1
                 and X.is_name(s.targets[0], name)]
+
+    def subset_polarity(self, name):
+        """+1 / -1 if `name` is the list of (non-)DependentSampler symbols, 0 if it is all symbols, None if unknown.
+        Recognised: a filtered comprehension over `symbols`, or a list filled by one append inside `for s in symbols`
+        that is control dependent on the isinstance(sample_from[s], DependentSampler) test (partition loop)."""
+        if name == 'symbols':
+            return 0
+        ds_ = self.assigns(name)
+        if len(ds_) != 1:
+            return None
+        c_ = _comp_over(ds_[0].value, {'symbols'})
+        if c_ is not None:
+            if isinstance(c_[0], ast.DictComp) or not X.is_name(c_[0].elt, c_[1]) or len(c_[2]) != 1:
+                return None
+            return _is_dependent_test(c_[2][0], c_[1]) or None
+        v = ds_[0].value
+        if not ((isinstance(v, ast.List) and not v.elts) or X.m("list()", v) is not None) or ds_[0] not in self.fn.body:
+            return None
+        apps = X.find_stmts(self.fn, "%s.append(_S)" % name, own=False)
+        touched = [n for n in walk_own(self.fn) if isinstance(n, ast.Attribute) and X.is_name(n.value, name)
+                   and n.attr in ('append', 'extend', 'insert', 'remove', 'pop', 'clear', 'sort', 'reverse')]
+        stores = [n for n in walk_own(self.fn) if isinstance(n, (ast.Subscript, ast.Name)) and isinstance(n.ctx, (ast.Store, ast.Del))
+                  and (X.is_name(n, name) or (isinstance(n, ast.Subscript) and X.is_name(n.value, name)))]
+        if len(apps) != 1 or len(touched) != 1 or len(stores) != 1:
+            return None
+        app, b = apps[0]
+        lp = X.enclosing_loop(app)
+        if not (isinstance(lp, ast.For) and X.is_name(lp.iter, 'symbols') and isinstance(lp.target, ast.Name) and X.is_name(b['_S'], lp.target.id)
+                and lp in self.fn.body and not lp.orelse and not any(isinstance(x, ast.Break) for x in ast.walk(lp))):
+            return None
+        for t in [x for x in ast.walk(lp) if isinstance(x, ast.If)]:
+            pol = _is_dependent_test(t.test, lp.target.id)
+            if not pol:
+                continue
+            if X.controlled_by(self.fi, t, True, app):
+                return pol
+            if X.controlled_by(self.fi, t, False, app):
+                return -pol
+        return None
 
 
 def _comp_over(e, source_names):
@@ -827,17 +866,7 @@ def d2_keys(ctx, idx):
         construct_w = 'gen_symbols_samples: the pending dict holds exactly the DependentSampler symbols with their depends'
         if len(wdefs) != 1:
             raise AnalysisError('definition of the pending dict not unique')
-        def subset_polarity(name):
-            """+1 / -1 if `name` is the list of (non-)DependentSampler symbols, 0 if it is all symbols, None if unknown."""
-            if name == 'symbols':
-                return 0
-            ds_ = A.assigns(name)
-            if len(ds_) != 1:
-                return None
-            c_ = _comp_over(ds_[0].value, {'symbols'})
-            if c_ is None or isinstance(c_[0], ast.DictComp) or not X.is_name(c_[0].elt, c_[1]) or len(c_[2]) != 1:
-                return None
-            return _is_dependent_test(c_[2][0], c_[1]) or None
+        subset_polarity = A.subset_polarity
         if A.planned:
             # the ordering loop consumes a copy of the dependents' dict; it runs once, before the samples
             src_ = X.copy_source(wdefs[0].value)
@@ -911,23 +940,19 @@ def d2_keys(ctx, idx):
         construct_i = 'gen_symbols_samples: the independent symbols are exactly the non-DependentSampler symbols'
         if I is not None:
             idefs = A.assigns(I)
-            if len(idefs) != 1:
-                raise AnalysisError('definition of %s not unique' % I)
-            ci = _comp_over(idefs[0].value, {'symbols'})
-            if ci is None or isinstance(ci[0], ast.DictComp):
-                r.undecided(construct_i, 'definition not recognised: %s' % short(idefs[0].value), lib.loc(fi, idefs[0]))
+            where_i = lib.loc(fi, idefs[0]) if idefs else fi.loc
+            pol_i = A.subset_polarity(I)
+            if pol_i == -1:
+                r.ok(construct_i, short(idefs[0].value, 90) if idefs else I, where_i)
+            elif pol_i == 1:
+                r.violation(construct_i, 'the `not` is missing: gen_sample() is called on the DependentSamplers (which always raises) and the '
+                            'independent symbols are never drawn', where_i, expected='if not isinstance(sample_from[symbol], DependentSampler)')
+            elif pol_i == 0 or (len(idefs) == 1 and _comp_over(idefs[0].value, {'symbols'}) is not None
+                                and not isinstance(_comp_over(idefs[0].value, {'symbols'})[0], ast.DictComp)
+                                and not _comp_over(idefs[0].value, {'symbols'})[2]):
+                r.violation(construct_i, 'no filter: gen_sample() is also called on DependentSamplers, which always raises', where_i)
             else:
-                comp2, key, ifs, _ = ci
-                pol = [_is_dependent_test(t, key) for t in ifs]
-                if len(ifs) == 1 and pol == [-1] and X.is_name(comp2.elt, key):
-                    r.ok(construct_i, short(idefs[0].value, 90), lib.loc(fi, idefs[0]))
-                elif len(ifs) == 1 and pol == [1]:
-                    r.violation(construct_i, 'the `not` is missing: gen_sample() is called on the DependentSamplers (which always raises) and the '
-                                'independent symbols are never drawn', lib.loc(fi, idefs[0]), expected='if not isinstance(sample_from[symbol], DependentSampler)')
-                elif not ifs:
-                    r.violation(construct_i, 'no filter: gen_sample() is also called on DependentSamplers, which always raises', lib.loc(fi, idefs[0]))
-                else:
-                    r.undecided(construct_i, 'filter not recognised', lib.loc(fi, idefs[0]))
+                r.undecided(construct_i, 'definition of `%s` not recognised' % I, where_i)
 
 
 def d3_roles(ctx, idx):
@@ -977,6 +1002,10 @@ def d3_roles(ctx, idx):
                 and X.mentions(loop.iter, A.W) and 'items' in unparse(loop.iter) and nf.equal(loop.target.elts[0], S) \
                 and isinstance(loop.target.elts[1], ast.Name):
             deps = loop.target.elts[1].id
+        elif isinstance(loop, ast.For) and isinstance(loop.target, ast.Name) and nf.equal(loop.target, S) and X.any_match(
+                [p_ % A.W for p_ in ("list(%s)", "%s", "list(%s.keys())", "%s.keys()", "sorted(%s)", "tuple(%s)", "sorted(%s.keys())")], loop.iter) is not None:
+            # a loop over (a snapshot of) the pending symbols: the depends are read as W[symbol]
+            deps = "%s[%s]" % (A.W, loop.target.id)
         construct = 'gen_symbols_samples: a dependent is computed only when all its depends are in the sample'
         def readiness(t):
             """(+1/-1, test expr) if the canonical If test is (the negation of) a readiness test."""
@@ -1331,7 +1360,7 @@ def d5_regex(ctx, idx):
         tree = rx.parse(parts)
         lead, core, trail = rx.split_anchors(tree)
         # how generate_variable_list applies the pattern
-        gv = idx.func(MM + '.generate_variable_list')
+        gv = gvl_view(idx)
         uses = [c for c in walk_own(gv.node) if isinstance(c, ast.Call) and isinstance(c.func, ast.Attribute)
                 and c.func.attr in ('match', 'fullmatch', 'search') and isinstance(c.func.value, ast.Name)
                 and _bound_to_call(gv, c.func.value.id, 'numbered_vars_regexp')]
@@ -1522,6 +1551,23 @@ def _index_hint(got):
     return 'the accepted index strings differ'
 
 
+def _helper_view(idx, qualname, how):
+    """A function with the helpers the normaliser left behind (unreviewed, or inlined at some call sites only) hoisted in."""
+    cache = idx.__dict__.setdefault('_c13_views', {})
+    if qualname in cache:
+        return cache[qualname]
+    fi0 = idx.func(qualname)
+    partly = set((getattr(idx, 'normalization', None) or {}).get('inlined', {}) or {})
+    view, done = how(idx, fi0, only=set(getattr(idx, 'unreviewed', None) or []) | partly)
+    X.settle_unreviewed(idx, done, {fi0.qualname})
+    cache[qualname] = view
+    return view
+
+
+def gvl_view(idx):
+    return _helper_view(idx, MM + '.generate_variable_list', X.inline_straight_calls)
+
+
 def _bound_to_call(fi, name, callee):
     for v in lib.assigned_value(fi.node, name):
         if isinstance(v, ast.Call) and nf.callee_name(v) == callee:
@@ -1536,7 +1582,7 @@ def d5_numbered(ctx, idx):
     r = ctx.rule('D5.NUMBERED', "generate_variable_list: copies of the configured variables/samplers; only undeclared names are "
                  "matched; group 1 is appended and given the sampler of group 2", floor=7)
     with r:
-        fi = idx.func(MM + '.generate_variable_list')
+        fi = gvl_view(idx)
         fn = fi.node
         rets = lib.returns_of(fn)
         if len(rets) != 1 or not (isinstance(rets[0].value, ast.Tuple) and len(rets[0].value.elts) == 2
@@ -1985,14 +2031,40 @@ def d6_siblings(ctx, idx):
                 and isinstance(X.m("_E.items()", loop.iter)['_E'], ast.Name):
             K, E = loop.target.elts[0].id, X.m("_E.items()", loop.iter)['_E'].id
             value_pats = [loop.target.elts[1].id, "%s[%s]" % (E, K)]
+        elif isinstance(loop, ast.For) and isinstance(loop.target, ast.Tuple) and len(loop.target.elts) == 2 \
+                and all(isinstance(t, ast.Name) for t in loop.target.elts) and X.m("_E.items()", loop.iter) is not None \
+                and isinstance(X.m("_E.items()", loop.iter)['_E'], ast.Call):
+            # the sibling dict is handed out by a helper and consumed at once
+            K, E = loop.target.elts[0].id, unparse(X.m("_E.items()", loop.iter)['_E'])
+            value_pats = [loop.target.elts[1].id]
         else:
             raise AnalysisError('gen_var_and_func_samples: sibling loop not recognised')
+        # where the sibling dict comes from: the in-line search over the arguments, or a helper that performs it
+        src_call = X.m("_E.items()", loop.iter)['_E'] if X.m("_E.items()", loop.iter) is not None else None
+        if isinstance(src_call, ast.Name):
+            d_ = [x for x in walk_own(fn) if isinstance(x, ast.Assign) and len(x.targets) == 1 and X.is_name(x.targets[0], src_call.id)]
+            src_call = d_[0].value if len(d_) == 1 else None
+        if isinstance(src_call, ast.Call) and nf.callee_name(src_call) not in (None, 'dict', 'list', 'sorted'):
+            _sibling_selector(r, idx, fi, src_call)
         vtext = value_pats[0]
         understood = X.only_calls([loop], {'append', 'DependentSampler', 'MissingInput', 'items', 'format'})
         construct = 'gen_var_and_func_samples: a sibling becomes DependentSampler(formula=<its formula>) under its own name'
         sb = X.m(X.spat("%s[_KEY] = DependentSampler(formula=_F)" % SF), dst)
         if sb is None:
             sb = X.m(X.spat("%s[_KEY] = DependentSampler({'formula': _F})" % SF), dst)
+        pairs = None
+        if sb is None:
+            # (name, sampler) pairs collected in a list that is merged into the sampler table afterwards
+            pb = X.m(X.spat("_P.append((_KEY, DependentSampler(formula=_F)))"), dst)
+            if pb is not None and isinstance(pb['_P'], ast.Name):
+                PS = X.aliases(fn, pb['_P'].id)
+                pinit = [x for x in walk_own(fn) if isinstance(x, ast.Assign) and len(x.targets) == 1 and X.is_name(x.targets[0], pb['_P'].id)]
+                merged = [st_ for n_ in PS for st_, _ in X.find_stmts(fn, "%s.update(%s)" % (SF, n_))]
+                others = [x for x in walk_own(fn) if isinstance(x, ast.Attribute) and isinstance(x.value, ast.Name) and x.value.id in PS
+                          and x.attr != 'append' and isinstance(parent(x), ast.Call)]
+                if len(pinit) == 1 and isinstance(pinit[0].value, ast.List) and not pinit[0].value.elts and X.enclosing_loop(pinit[0]) is None \
+                        and len(merged) == 1 and not others and X.dominates(fi, loop, merged[0]) and not X.in_subtree(merged[0], loop):
+                    sb, pairs = pb, PS
         if sb is None:
             r.undecided(construct, 'statement not recognised: %s' % short(dst), lib.loc(fi, dst))
         else:
@@ -2006,8 +2078,12 @@ def d6_siblings(ctx, idx):
                     raise AnalysisError('sibling formula not recognised: %s' % short(sb['_F']))
             r.check(not probs, construct, short(dst), '; '.join(probs), lib.loc(fi, dst), expected='%s[%s] = DependentSampler(formula=%s)' % (SF, K, vtext))
         construct = 'gen_var_and_func_samples: every sibling is declared as a variable'
-        apps = X.find_stmts(loop, "%s.append(%s)" % (VARS, K), own=False) or X.find_stmts(fn, "%s.extend(%s)" % (VARS, E)) \
-            or X.find_stmts(fn, "%s += list(%s)" % (VARS, E))
+        apps = X.find_stmts(loop, "%s.append(%s)" % (VARS, K), own=False) or (
+            (X.find_stmts(fn, "%s.extend(%s)" % (VARS, E)) or X.find_stmts(fn, "%s += list(%s)" % (VARS, E))) if '(' not in E else [])
+        if not apps and pairs:
+            for n_ in pairs:
+                for ptn in ("%s.extend((_N for _N, __ in %s))", "%s.extend([_N for _N, __ in %s])", "%s += [_N for _N, __ in %s]"):
+                    apps = apps or X.find_stmts(fn, ptn % (VARS, n_))
         if apps:
             r.ok(construct, short(apps[0][0]), lib.loc(fi, apps[0][0]))
         else:
@@ -2048,6 +2124,8 @@ def d6_siblings(ctx, idx):
                 got = bound.get(role)
                 if got is None:
                     probs.append('%s missing' % role)
+                elif X.any_match(alts, got) is None and X.any_match(alts, _inline_keep(got, fn, {VARS, SF})) is not None:
+                    pass                  # the value is bound to a local first (e.g. num_samples = self.config['samples'])
                 elif X.any_match(alts, got) is None:
                     if any(X.m(k, got) is not None for k in known):
                         probs.append('%s=%s instead of %s' % (role, short(got), alts[0]))
@@ -2063,7 +2141,7 @@ def d6_siblings(ctx, idx):
         if okr:
             v0 = lib.inline_locals(rets[0].value.elts[0], fn)
             v1 = lib.inline_locals(rets[0].value.elts[1], fn)
-            same = lambda v, c: isinstance(v, ast.Call) and nf.equal(v, c)
+            same = lambda v, c: isinstance(v, ast.Call) and (nf.equal(v, c) or nf.equal(v, lib.inline_locals(c, fn)))
             if same(v0, order[0]) and same(v1, order[1]):
                 r.ok(construct, '', lib.loc(fi, rets[0]))
             elif same(v0, order[1]) and same(v1, order[0]):
@@ -2072,6 +2150,69 @@ def d6_siblings(ctx, idx):
                 r.undecided(construct, 'returned values not recognised', lib.loc(fi, rets[0]))
         else:
             r.undecided(construct, 'return not recognised', fi.loc)
+
+
+def _inline_keep(expr, fn, keep):
+    """lib.inline_locals, but the locals named in `keep` stay as names."""
+    env = {k: v for k, v in lib.local_env(fn).items() if k not in keep}
+    cur = expr
+    for _ in range(4):
+        new = nf.subst(cur, env)
+        if ast.dump(new) == ast.dump(cur):
+            break
+        cur = new
+    return cur
+
+
+def _sibling_selector(r, idx, fi, call):
+    """The helper that hands out the sibling dict: a search loop over its argument returning the first dict all of whose
+    keys start with 'sibling_' (the in-line original stops at the first such dict too: `break`)."""
+    construct = 'gen_var_and_func_samples: the sibling dict is the first dict argument whose keys all start with sibling_'
+    try:
+        targets, how = idx.resolve_call(getattr(fi, 'original', fi), call)
+    except Exception:
+        targets = []
+    fts = [t for t in targets if hasattr(t, 'node')]
+    if len(fts) != 1:
+        r.undecided(construct, 'source of the sibling dict not resolved: %s' % short(call), lib.loc(fi, call))
+        return
+    h = fts[0]
+    params = [p_ for p_ in h.params if p_ not in ('self', 'cls')]
+    loops = [l for l in walk_own(h.node) if isinstance(l, (ast.For, ast.While))]
+    rets = lib.returns_of(h.node)
+    ok = len(call.args) == 1 and X.is_name(call.args[0], 'args') and len(params) == 1 and len(loops) == 1 and isinstance(loops[0], ast.For) \
+        and X.is_name(loops[0].iter, params[0]) and isinstance(loops[0].target, ast.Name) and not loops[0].orelse \
+        and not any(isinstance(x, ast.Break) for x in ast.walk(loops[0]))
+    if ok:
+        e = loops[0].target.id
+        inside = [x for x in rets if X.in_subtree(x, loops[0])]
+        outside = [x for x in rets if not X.in_subtree(x, loops[0])]
+        empty = lambda v: v is None or (isinstance(v, ast.Constant) and v.value is None) or (isinstance(v, ast.Dict) and not v.keys) \
+            or X.m("dict()", v) is not None
+        ok = len(inside) == 1 and X.is_name(inside[0].value, e) and all(empty(x.value) for x in outside)
+        if ok:
+            # the return is control dependent on both tests, whatever their layout (nested ifs, `and`, guard-clause continue)
+            need = {'dict': False, 'prefix': False}
+            for t in [x for x in ast.walk(loops[0]) if isinstance(x, ast.If)]:
+                c = nf.canon(t.test)
+                parts = list(c.values) if isinstance(c, ast.BoolOp) and isinstance(c.op, ast.And) else [c]
+                for q in parts:
+                    neg = isinstance(q, ast.UnaryOp) and isinstance(q.op, ast.Not)
+                    core = q.operand if neg else q
+                    kind = 'dict' if X.m("isinstance(%s, dict)" % e, core) is not None else 'prefix' if X.any_match(
+                        ["all([_K.startswith('sibling_') for _K in %s])" % e, "all(_K.startswith('sibling_') for _K in %s)" % e], core) is not None else None
+                    if kind and len(parts) == 1 and X.controlled_by(h, t, not neg, inside[0]):
+                        need[kind] = True
+                    elif kind and not neg and len(parts) > 1 and X.controlled_by(h, t, True, inside[0]):
+                        need[kind] = True
+            ok = all(need.values())
+    if ok:
+        left = getattr(idx, 'unreviewed', None)
+        if left and h.qualname in left:
+            left.remove(h.qualname)
+        r.ok(construct, 'search loop of %s' % h.qualname.rsplit('.', 1)[-1], h.loc)
+    else:
+        r.undecided(construct, 'helper %s not recognised as that search' % h.qualname.rsplit('.', 1)[-1], h.loc)
 
 
 # ----------------------------------------------------------------------------- D7
@@ -2159,7 +2300,12 @@ _W5J_MID = ('    pruned_constants = {sym: constants[sym] for sym in constants if
 _W5J_LOOP = ('        # Generate dependent samples, following chains as necessary\n        unevaluated_dependents = {\n            symbol: sample_from[symbol].config[\'depends\'] for symbol in symbols\n            if isinstance(sample_from[symbol], DependentSampler)\n        }\n        while unevaluated_dependents:\n            progress_made = False\n            for symbol, dependencies in list(unevaluated_dependents.items()):\n                if is_subset(dependencies, sample_dict):\n                    sample_dict[symbol] = sample_from[symbol].compute_sample(\n                        sample_dict, functions, suffixes)\n                    del unevaluated_dependents[symbol]\n                    progress_made = True\n\n            if not progress_made:\n                # Two possible causes\n                # 1: Depends on variables that are undefined\n                # Check for this first\n                all_depends = set()\n                for symbol, dependencies in list(unevaluated_dependents.items()):\n                    for item in dependencies:\n                        all_depends.add(item)\n                bad_items = []\n                for item in all_depends:\n                    if item not in unevaluated_dependents and item not in sample_dict:\n                        bad_items.append(item)\n                if bad_items:\n                    bad_symbols = ", ".join(sorted(bad_items))\n                    raise ConfigError("DependentSamplers depend on undefined quantities: " +\n                                      bad_symbols)\n\n                # 2: Circular dependencies\n                bad_symbols = ", ".join(sorted(unevaluated_dependents.keys()))\n                raise ConfigError("Circularly dependent DependentSamplers detected: " +\n                                  bad_symbols)\n\n',
              '        # Generate dependent samples\n        for symbol in evaluation_order:\n            sample_dict[symbol] = sample_from[symbol].compute_sample(\n                sample_dict, functions, suffixes)\n\n')
 
+_W5R_SPLIT = [('    independent = [\n        symbol for symbol in symbols\n        if not isinstance(sample_from[symbol], DependentSampler)\n    ]\n\n', '    independent, dependent = [], []\n    for symbol in symbols:\n        if isinstance(sample_from[symbol], DependentSampler):\n            dependent.append(symbol)\n        else:\n            independent.append(symbol)\n\n'), ("        unevaluated_dependents = {\n            symbol: sample_from[symbol].config['depends'] for symbol in symbols\n            if isinstance(sample_from[symbol], DependentSampler)\n        }\n", "        unevaluated_dependents = {symbol: sample_from[symbol].config['depends'] for symbol in dependent}\n"), ('            for symbol, dependencies in list(unevaluated_dependents.items()):\n                if is_subset(dependencies, sample_dict):\n                    sample_dict[symbol] = sample_from[symbol].compute_sample(\n                        sample_dict, functions, suffixes)\n                    del unevaluated_dependents[symbol]\n                    progress_made = True\n', '            for symbol in list(unevaluated_dependents):\n                if not is_subset(unevaluated_dependents[symbol], sample_dict):\n                    continue\n                sample_dict[symbol] = sample_from[symbol].compute_sample(sample_dict, functions, suffixes)\n                del unevaluated_dependents[symbol]\n                progress_made = True\n')]
+_W5R_MATCH = [("        regexp = numbered_vars_regexp(self.config['numbered_vars'])\n        for var in bad_vars:\n            match = regexp.match(var)  # Returns None if no match\n            if match:\n                # This variable is a numbered_variable\n                # Go and add it to variable_list with the appropriate sampler\n                (full_string, head) = match.groups()\n                variable_list.append(full_string)\n                sample_from_dict[full_string] = sample_from_dict[head]\n\n", '        for full_string, head in self._match_numbered_vars(bad_vars):\n            variable_list.append(full_string)\n            sample_from_dict[full_string] = sample_from_dict[head]\n\n'), ('    def generate_variable_list(self, expressions):\n', "    def _match_numbered_vars(self, candidates):\n        regexp = numbered_vars_regexp(self.config['numbered_vars'])\n        matches = [regexp.match(var) for var in candidates]\n        return [match.groups() for match in matches if match]\n\n    def generate_variable_list(self, expressions):\n")]
+
 MUTANTS = [
+    Mutant('partition-loop-branches-swapped', SAMPLING, [(_W5R_SPLIT[0][0], _W5R_SPLIT[0][1].replace('dependent.append(symbol)\n        else:\n            independent.append(symbol)', 'independent.append(symbol)\n        else:\n            dependent.append(symbol)')), _W5R_SPLIT[1], _W5R_SPLIT[2]], None, 'D2'),
+    Mutant('numbered-helper-appends-head', MH, [(_W5R_MATCH[0][0], _W5R_MATCH[0][1].replace('variable_list.append(full_string)', 'variable_list.append(head)')), _W5R_MATCH[1]], None, 'D5'),
     Mutant('planned-order-never-makes-ready-available', SAMPLING, [(_W5J_HELPER[0], _W5J_HELPER[1].replace("        available.update(ready)\n", "")),
                                                                    (_W5J_MID[0], _W5J_MID[1] % 'pruned_constants'), _W5J_LOOP], None, 'D1'),
     Mutant('planned-order-without-independents', SAMPLING, [_W5J_HELPER, (_W5J_MID[0], _W5J_MID[1].replace('.union(independent)', '') % 'pruned_constants'), _W5J_LOOP], None, 'D3'),
@@ -2223,6 +2369,8 @@ MUTANTS = [
 ]
 
 BENIGN = [
+    Benign('partition-loop-and-keys-loop', SAMPLING, _W5R_SPLIT, None),
+    Benign('numbered-matches-from-helper', MH, _W5R_MATCH, None),
     Benign('evaluation-order-planned-once', SAMPLING, [_W5J_HELPER, (_W5J_MID[0], _W5J_MID[1] % 'pruned_constants'), _W5J_LOOP], None),
     Benign('numbered-pairs-by-comprehension', MH, [_W5_HELPER, (_W5_OLD, _W5_NEW % 'head')], None),
     Benign('progress-flag-snapshot', SAMPLING, "            if not progress_made:\n", "            made_progress = progress_made\n            if not made_progress:\n"),
